@@ -390,6 +390,38 @@ def interplay_worker(task):
                                       "%s: .stream does not return the new "
                                       "stream" % name, {"case": name}))
                     prev_used = s2.i
+        # (c) a clone (copy.copy, as a prototype per component) re-pointed at
+        #     its own stream: original and clone are two instances
+        import copy
+        for before in (0, 1, 2):
+            for how in ("copy", "deepcopy"):
+                n += 1
+                s1 = Scripted(weyl(300))
+                d = mk(s1)
+                seq_of(d, before)
+                try:
+                    cl = copy.copy(d) if how == "copy" else copy.deepcopy(d)
+                    s2 = Scripted(weyl(300, 0.754877666, 0.11))
+                    cl.stream = s2
+                except Exception as ex:  # noqa
+                    continue          # cloning is not part of the property
+                gd, gc = [], []
+                for i in range(K):
+                    gc += seq_of(cl, 1)
+                    gd += seq_of(d, 1)
+                ref_d = mk(Scripted(weyl(300)))
+                seq_of(ref_d, before)
+                exp_d = seq_of(ref_d, K)
+                exp_c = seq_of(mk(Scripted(weyl(300, 0.754877666, 0.11))), K)
+                if (gd != exp_d or gc != exp_c) and name != "Constant(4.2)":
+                    viols.append((
+                        "C14:clone-on-its-own-stream-influences-original:%s"
+                        % name.split("(")[0],
+                        "%s: %s after %d draws, clone.stream = new, then "
+                        "alternating draws: original %s (alone: %s), clone "
+                        "%s (fresh on an equal stream: %s)" % (
+                            name, how, before, gd, exp_d, gc, exp_c),
+                        {"case": name, "before": before}))
     return n, viols
 
 
